@@ -1,6 +1,7 @@
 import Model.Lib.Ops
 import Mathlib.Tactic.Ring
 import Mathlib.Tactic.NormNum
+import Mathlib.Tactic.Linarith
 /-!
 # Two's-complement helpers: sign extension keeps the signed value; the signed comparison trick
 -/
@@ -252,5 +253,112 @@ theorem signedAdd_exact (wa a wb b : Nat) (hwa : 0 < wa) (hwb : 0 < wb) (ha : a 
     have hge : 2 * (2 * Q) ≤ x + y := by omega
     by_cases h1 : 2 * Q ≤ x <;> by_cases h2 : 2 * Q ≤ y <;> by_cases h3 : 2 * Q ≤ x + y - 2 * (2 * Q) <;>
       simp only [h1, h2, h3, ↓reduceIte] at hra hrb ⊢ <;> push_cast [hge] at hra hrb ⊢ <;> omega
+
+
+/-- an in-range value congruent to a signed number that fits reads as that number -/
+theorem toSigned_congr (n r : Nat) (s k : Int) (hn : 0 < n) (hr : r < 2 ^ n)
+    (h : (r : Int) = s + ((2 ^ n : Nat) : Int) * k)
+    (hlo : -((2 ^ (n - 1) : Nat) : Int) ≤ s) (hhi : s < ((2 ^ (n - 1) : Nat) : Int)) :
+    toSigned (n, r) = s := by
+  rw [toSigned_eq n r hn hr]
+  have h2 : 2 ^ n = 2 * 2 ^ (n - 1) := by
+    rw [show n = (n - 1) + 1 by omega, Nat.pow_succ]; simp; ring
+  have hP : (0 : Int) < ((2 ^ n : Nat) : Int) := by exact_mod_cast Nat.two_pow_pos n
+  have hr' : (r : Int) < ((2 ^ n : Nat) : Int) := by exact_mod_cast hr
+  have hr0 : (0 : Int) ≤ (r : Int) := Int.natCast_nonneg r
+  have hk0 : 0 ≤ k := by
+    by_contra hneg
+    have : k ≤ -1 := by omega
+    have : ((2 ^ n : Nat) : Int) * k ≤ ((2 ^ n : Nat) : Int) * (-1) := Int.mul_le_mul_of_nonneg_left this (le_of_lt hP)
+    push_cast [h2] at *
+    omega
+  have hk1 : k ≤ 1 := by
+    by_contra hbig
+    have : 2 ≤ k := by omega
+    have : ((2 ^ n : Nat) : Int) * 2 ≤ ((2 ^ n : Nat) : Int) * k := Int.mul_le_mul_of_nonneg_left this (le_of_lt hP)
+    push_cast [h2] at *
+    omega
+  have hk : k = 0 ∨ k = 1 := by omega
+  rcases hk with rfl | rfl
+  · simp only [Int.mul_zero, Int.add_zero] at h
+    have : ¬ 2 ^ (n - 1) ≤ r := by
+      intro hc
+      have : ((2 ^ (n - 1) : Nat) : Int) ≤ (r : Int) := by exact_mod_cast hc
+      omega
+    simp only [this, ↓reduceIte]; exact h
+  · simp only [Int.mul_one] at h
+    have : 2 ^ (n - 1) ≤ r := by
+      have : ((2 ^ (n - 1) : Nat) : Int) ≤ (r : Int) := by push_cast [h2] at *; omega
+      exact_mod_cast this
+    simp only [this, ↓reduceIte]; omega
+
+/-- **`signed_mult`**: sign-extend both to `len(a)+len(b)` bits, multiply, keep that many bits: exactly the
+    product of the two's-complement values -/
+theorem signedMult_exact (wa a wb b : Nat) (hwa : 0 < wa) (hwb : 0 < wb) (ha : a < 2 ^ wa) (hb : b < 2 ^ wb) :
+    (signedMult (wa, a) (wb, b)).1 = wa + wb ∧
+    toSigned (signedMult (wa, a) (wb, b)) = toSigned (wa, a) * toSigned (wb, b) := by
+  unfold signedMult
+  simp only []
+  obtain ⟨hx1, hxx, hxs⟩ := sign_extend_value wa a (wa + wb) hwa ha (by omega)
+  obtain ⟨hy1, hyy, hys⟩ := sign_extend_value wb b (wa + wb) hwb hb (by omega)
+  have hra := toSigned_range wa a hwa ha
+  have hrb := toSigned_range wb b hwb hb
+  generalize hX : signExtended (wa, a) (wa + wb) = X at *
+  generalize hY : signExtended (wb, b) (wa + wb) = Y at *
+  obtain ⟨Xw, x⟩ := X
+  obtain ⟨Yw, y⟩ := Y
+  simp only at hx1 hy1 hxx hyy
+  subst hx1 hy1
+  rw [← hxs] at hra
+  rw [← hys] at hrb
+  rw [← hxs, ← hys]
+  generalize hfl : wa + wb = fl at *
+  have hfl0 : 0 < fl := by omega
+  -- the 2·fl-bit product is exact; the low fl bits are the product modulo 2^fl
+  have hprod : twoVarOp .mul (fl, x) (fl, y) = (fl * 2, x * y) := by
+    simp only [twoVarOp, Nat.max_self, zeroExtended_self, Spec.comb]
+    rw [Nat.mod_eq_of_lt (by rw [Nat.pow_mul, Nat.pow_two]; exact Nat.mul_lt_mul'' hxx hyy)]
+  rw [hprod]
+  simp only [lowBits, Spec.comb, selectVal_range, Nat.mod_mod]
+  refine ⟨trivial, ?_⟩
+  have hrlt : (x * y) % 2 ^ fl < 2 ^ fl := Nat.mod_lt _ (Nat.two_pow_pos _)
+  -- x ≡ sx, y ≡ sy (mod 2^fl)
+  have ex := toSigned_eq fl x hfl0 hxx
+  have ey := toSigned_eq fl y hfl0 hyy
+  set sx := toSigned (fl, x) with hsx
+  set sy := toSigned (fl, y) with hsy
+  obtain ⟨i, hi⟩ : ∃ i : Int, (x : Int) = sx + ((2 ^ fl : Nat) : Int) * i := by
+    by_cases h : 2 ^ (fl - 1) ≤ x
+    · exact ⟨1, by rw [ex]; simp only [h, ↓reduceIte]; ring⟩
+    · exact ⟨0, by rw [ex]; simp only [h, ↓reduceIte]; ring⟩
+  obtain ⟨j, hj⟩ : ∃ j : Int, (y : Int) = sy + ((2 ^ fl : Nat) : Int) * j := by
+    by_cases h : 2 ^ (fl - 1) ≤ y
+    · exact ⟨1, by rw [ey]; simp only [h, ↓reduceIte]; ring⟩
+    · exact ⟨0, by rw [ey]; simp only [h, ↓reduceIte]; ring⟩
+  have hdiv := Nat.div_add_mod (x * y) (2 ^ fl)
+  apply toSigned_congr fl _ (sx * sy) (i * sy + j * sx + ((2 ^ fl : Nat) : Int) * i * j - ((x * y / 2 ^ fl : Nat) : Int)) hfl0 hrlt
+  · have : ((x * y % 2 ^ fl : Nat) : Int) = (x : Int) * y - ((2 ^ fl : Nat) : Int) * ((x * y / 2 ^ fl : Nat) : Int) := by
+      have := congrArg (fun n : Nat => (n : Int)) hdiv
+      push_cast at this ⊢
+      linarith
+    rw [this, hi, hj]
+    ring
+  all_goals
+    -- |sx·sy| ≤ 2^(wa-1)·2^(wb-1) = 2^(fl-2) < 2^(fl-1)
+    have hA : (0 : Int) ≤ ((2 ^ (wa - 1) : Nat) : Int) := Int.natCast_nonneg _
+    have hB : (0 : Int) ≤ ((2 ^ (wb - 1) : Nat) : Int) := Int.natCast_nonneg _
+    have hAB : 2 * (2 ^ (wa - 1) * 2 ^ (wb - 1)) = 2 ^ (fl - 1) := by
+      rw [← Nat.pow_add, ← Nat.pow_succ']
+      congr 1; omega
+    have hABi : 2 * (((2 ^ (wa - 1) : Nat) : Int) * ((2 ^ (wb - 1) : Nat) : Int)) = ((2 ^ (fl - 1) : Nat) : Int) := by
+      exact_mod_cast hAB
+    have hpos : (0 : Int) < ((2 ^ (wa - 1) : Nat) : Int) * ((2 ^ (wb - 1) : Nat) : Int) := by
+      have h1 : (0 : Int) < ((2 ^ (wa - 1) : Nat) : Int) := by exact_mod_cast Nat.two_pow_pos _
+      have h2 : (0 : Int) < ((2 ^ (wb - 1) : Nat) : Int) := by exact_mod_cast Nat.two_pow_pos _
+      exact Int.mul_pos h1 h2
+    obtain ⟨h1, h2⟩ := hra
+    obtain ⟨h3, h4⟩ := hrb
+    nlinarith [mul_nonneg (sub_nonneg.2 (le_of_lt h2)) (sub_nonneg.2 (le_of_lt h4)), mul_nonneg (sub_nonneg.2 h1) (sub_nonneg.2 h3),
+      mul_nonneg (sub_nonneg.2 (le_of_lt h2)) (sub_nonneg.2 h3), mul_nonneg (sub_nonneg.2 h1) (sub_nonneg.2 (le_of_lt h4))]
 
 end Pyrtl.Ops
